@@ -266,13 +266,31 @@ def check_hand(res, rng, carry):
                         pos = [a for a in o.amounts if a > 0]
                         if len(pos) >= 2:
                             odd += max(pos) - min(pos)
+                # whole units the REPLAY gave to the first of several
+                # winners because that pot's amount was an int (the log
+                # mixes '$35' and '$98.03': parse_value makes the former an
+                # int, and a pot made of ints only is split by integer
+                # division)
+                int_odd = 0
+                for o in fin.operations:
+                    if type(o).__name__ == 'ChipsPushing':
+                        pos = [a for a in o.amounts if a > 0]
+                        if len(pos) >= 2 and all(
+                                isinstance(a, int) for a in pos):
+                            int_odd += max(pos) - min(pos)
+                agree = abs(sum(gs) - sum(es)) < Decimal('1e-18')
+                # (28-digit Decimal thirds do not add up exactly)
                 if not fin.status and gs != es and sc != 1 and odd and all(
                         abs(a - b) < odd * sc for a, b in zip(gs, es)) \
-                        and abs(sum(gs) - sum(es)) < Decimal('1e-18'):
-                    # (28-digit Decimal thirds do not add up exactly)
+                        and agree:
                     # a chopped pot: the Decimal replay divides the odd
                     # cent(s) exactly, the log gives them to one player
                     kf = 'decimal_chop_subcent'
+                elif not fin.status and gs != es and sc != 1 and int_odd \
+                        and agree and all(
+                            abs(a - b) < int_odd + odd * sc
+                            for a, b in zip(gs, es)):
+                    kf = 'mixed_int_decimal_chop'
                 if fin.status or gs != es:
                     problems.append(
                         f'replay ends with stacks {list(fin.stacks)} '
